@@ -20,7 +20,13 @@ HORIZON = 3000
 
 FLAGSETS_Q = ['GE', 'GDE', 'GEF', 'LE', 'LEF', 'GEX', 'GEO', 'E', 'GDEFX', 'GEI', 'LDEX', 'GDEO']
 LISTS = [(['*', '!a'], None, 'N'), (['**', '!*/a'], None, 'N'), (['**'], ['*/'], ''), (['*', '.*'], ['.h'], ''),
-         (['**/a', 'a/**'], None, ''), (['!a'], None, 'NA'), (['**'], ['**/a'], ''), (['a/*', '*/'], ['a/b'], 'N')]
+         (['**/a', 'a/**'], None, ''), (['!a'], None, 'NA'), (['**'], ['**/a'], ''), (['a/*', '*/'], ['a/b'], 'N'),
+         # exclude= patterns see hidden names whatever DOTGLOB says, in the walker and in the matcher alike
+         (['.h/*', 'a/*'], ['*/*'], ''), (['.h', '*'], ['*'], ''), (['.h/a', 'a'], ['*/a'], ''), (['**/.h', 'b'], ['**/*'], ''),
+         (['.*'], ['.h'], ''), (['.h/**'], ['**/.h'], ''),
+         # an absolute pattern in front of relative ones (<ROOT> = the root directory of the state)
+         (['<ROOT>/a', 'a/*'], None, ''), (['<ROOT>/*', '*/a', 'b'], None, ''), (['<ROOT>/a|b'], None, 'S'),
+         (['{<ROOT>/a,*/b}'], None, 'B')]
 
 
 def follows(text, fs):
@@ -45,6 +51,10 @@ def candidates(model, got):
     return sorted(c)
 
 
+def _anon(x, root):
+    return '<ROOT>' + x[len(root):] if x.startswith(root) else x
+
+
 def run_both(pats, ex, fs, root, how, cands, dir_fd=None):
     fl = fscommon.gflags(fs)
     kw = {}
@@ -52,6 +62,8 @@ def run_both(pats, ex, fs, root, how, cands, dir_fd=None):
         kw['root_dir'] = root
     elif how == 'dir_fd':
         kw['dir_fd'] = dir_fd
+    if any('<ROOT>' in x for x in pats):
+        pats = [x.replace('<ROOT>', root) for x in pats]
     with fsx.ScandirMonitor(HORIZON) as mon:
         try:
             got = G.glob(pats, flags=fl, exclude=ex, **kw)
@@ -95,8 +107,8 @@ def check_state(desc, sc, pats, flagsets, res, hows=('root_dir',), thin=0):
                     if got is None:
                         res.add_violation(ID, run.viol('no-termination', inp, 'terminates', 'scandir horizon'))
                         continue
-                    gs = set(refglob.norm(x) for x in got)
-                    as_ = set(refglob.norm(x) for x in acc)
+                    gs = set(_anon(refglob.norm(x), sc.root) for x in got)
+                    as_ = set(_anon(refglob.norm(x), sc.root) for x in acc)
                     if gs and len(gs) < len(model.all_paths()) + 2:
                         res.n['distinct_nontrivial'] += 1
                     only_glob = sorted(gs - as_)
@@ -215,8 +227,8 @@ def replay(v):
         got, acc = run_both(inp['patterns'], inp['exclude'], inp['flags'], sc.root, how, candidates(model, []), fd)
         if got is None:
             return {'violates': True, 'observed': 'no termination'}
-        gs = set(refglob.norm(x) for x in got)
-        as_ = set(refglob.norm(x) for x in acc)
+        gs = set(_anon(refglob.norm(x), sc.root) for x in got)
+        as_ = set(_anon(refglob.norm(x), sc.root) for x in acc)
         return {'violates': gs != as_, 'observed': {'only_glob': sorted(gs - as_), 'only_globmatch': sorted(as_ - gs)}}
     finally:
         os.chdir(cwd)
